@@ -1,4 +1,5 @@
-\* big: 3 calls x 2 connections, 1 drop, 2 noise packets (reduced interleaving RedSpec); 16 workers; not part of the tiers' time budget
+\* 3 calls x 2 connections, 1 drop, 2 noise packets (RedSpec): beyond the time budget with this fine-grained model -
+\* a 9 min probe (12 workers) reached depth 21 with 18.6 M distinct states and a growing queue; kept for long runs
 CONSTANTS
   Calls = {c1, c2, c3}
   NConns = 2
